@@ -424,6 +424,7 @@ func checkC04(w *World, r *Report) {
 	ruleFinalRender(w, r, "C04")
 	ruleCursorUp(w, r, "C04")
 	ruleFlushReturnsErrors(w, r, "C04")
+	ruleOptionTable(w, r, "C04", map[string][3]string{"WithRenderDelay": {tPState, "delayRC", "param"}, "WithManualRefresh": {tPState, "manualRC", "param"}, "WithAutoRefresh": {tPState, "autoRefresh", "true"}, "WithOutput": {tPState, "output", "paramOrDefault"}, "WithRefreshRate": {tPState, "refreshRate", "param"}})
 	ruleFillGuards(w, r, "C04")
 	ruleRowsFit(w, r, "C04")
 	fi := w.analyseFlush()
